@@ -30,10 +30,11 @@ const (
 )
 
 type cOp struct {
-	Kind int
-	Reg  *Reg
-	Id   Ident
-	Why  string
+	Kind   int
+	Reg    *Reg
+	Id     Ident
+	Why    string
+	IntKey int // RemoveKeyed with an int key (no registration ever has one): must be a no-op
 }
 
 func (o cOp) String() string {
@@ -45,6 +46,9 @@ func (o cOp) String() string {
 	case cRemove:
 		return "Remove(" + o.Id.T.String() + ")"
 	case cRemoveKeyed:
+		if o.IntKey > 0 {
+			return fmt.Sprintf("RemoveKeyed(%s, int %d)", o.Id.T, o.IntKey)
+		}
 		return fmt.Sprintf("RemoveKeyed(%s, %s)", o.Id.T, o.Id.Key)
 	case cBuild:
 		return "Build"
@@ -216,6 +220,12 @@ func decodeCollCase(tier string, idx int, tape *Tape) *collCase {
 			t := pickT()
 			if tape.Choose(StOps, 4) == 0 {
 				t = voidRef()
+			}
+			if len(groupsUsed) > 0 && tape.Choose(StOps, 4) == 0 {
+				// a key nobody registered: an int that happens to equal a group member's position
+				gu := groupsUsed[tape.Choose(StOps, len(groupsUsed))]
+				c.Ops = append(c.Ops, cOp{Kind: cRemoveKeyed, Id: Ident{T: gu.T}, IntKey: 1 + tape.Choose(StOps, 2)})
+				continue
 			}
 			c.Ops = append(c.Ops, cOp{Kind: cRemoveKeyed, Id: Ident{T: t, Key: keyPool[tape.Choose(StOps, 2)]}})
 		case 10, 11:
@@ -691,6 +701,12 @@ func runCollCase(c *collCase, tape *Tape, out *RunOut) []Violation {
 			out.Reach["coll.remove"]++
 			queries(when)
 		case cRemoveKeyed:
+			if op.IntKey > 0 {
+				coll.RemoveKeyed(op.Id.T.RT(), op.IntKey)
+				out.Reach["coll.removekeyed-unregistered-int-key"]++
+				queries(when)
+				continue
+			}
 			coll.RemoveKeyed(op.Id.T.RT(), op.Id.Key)
 			m.remove(op.Id)
 			queries(when)
